@@ -24,6 +24,9 @@ type Net struct {
 	Endpoints  []*Endpoint
 	// OnWrite is called with every buffer handed to Write (monitors).
 	OnWrite func(e *Endpoint, p []byte)
+	// OnAccept is called with bytes as they are accepted into the peer's queue
+	// (the order in which concurrent writers' data really hits the wire).
+	OnAccept func(e *Endpoint, p []byte)
 	// OnRead is called with every chunk returned by Read.
 	OnRead func(e *Endpoint, p []byte)
 	// Mutate, if set, may replace bytes accepted into a queue (byzantine).
@@ -398,6 +401,9 @@ func (e *Endpoint) writeBytes(t *verifsim.Task, op int, p []byte) (int, error) {
 func (e *Endpoint) accept(p []byte) {
 	n := e.N
 	q := p
+	if n.OnAccept != nil {
+		n.OnAccept(e, p)
+	}
 	e.Peer.rq = append(e.Peer.rq, q...)
 	e.Written += len(p)
 	n.Stats.BytesWritten += len(p)
